@@ -228,9 +228,9 @@ Qed.
 Lemma shapes_dX Xs : map (@shape sval) (dX Xs) = map c_shape Xs.
 Proof. unfold dX. rewrite map_map. reflexivity. Qed.
 
-Lemma eval_snoc lit ns n (g g1 : genv) :
-  eval cten (kgsem lit) ns g = Some g1 -> eval cten (kgsem lit) (ns ++ [n]) g = step cten (kgsem lit) g1 n.
-Proof. intro H. rewrite eval_app, H. simpl. now destruct (step cten (kgsem lit) g1 n). Qed.
+Lemma eval_snoc sem ns n (g g1 : genv) :
+  eval cten sem ns g = Some g1 -> eval cten sem (ns ++ [n]) g = step cten sem g1 n.
+Proof. intro H. rewrite eval_app, H. simpl. now destruct (step cten sem g1 n). Qed.
 
 Lemma upd_same (g : genv) x v : upd cten g x v x = Some v.
 Proof. unfold upd. now rewrite Nat.eqb_refl. Qed.
@@ -238,25 +238,29 @@ Lemma upd_other (g : genv) x v m : m <> x -> upd cten g x v m = g m.
 Proof. intro H. unfold upd. destruct (Nat.eqb_spec m x); [contradiction | reflexivity]. Qed.
 
 Section Emit.
-  Variable lit : cten.
-  Notation geval := (eval cten (kgsem lit)).
-  Notation gstep := (step cten (kgsem lit)).
+  (* any node semantics that interprets the elementwise occurrences and Constant as below (kgsem does; so does the
+     extended semantics of LiftStruct) *)
+  Variable sem : string -> list nat -> list cten -> option (list cten).
+  Hypothesis sem_op : forall o vals, osb_ok o -> sem (oname o) (enc_op o) vals = gsem_op o vals.
+  Hypothesis sem_const : forall c, sem "Constant"%string (enc_const c) [] = Some [tcanon (tscalar c)].
+  Notation geval := (eval cten sem).
+  Notation gstep := (step cten sem).
 
   Lemma step_const (g : genv) c out :
     gstep g (mkNode "Constant"%string (enc_const c) [] [] [out]) = Some (upd cten g out (tcanon (tscalar c))).
-  Proof. unfold step, n_uses; simpl. unfold kgsem; simpl. rewrite dec_enc_const. reflexivity. Qed.
+  Proof. unfold step, n_uses; simpl. rewrite sem_const. reflexivity. Qed.
   Lemma step_node1 (g : genv) o ra Ta out : osb_ok o -> oarity o = 1%nat -> g ra = Some Ta ->
     gstep g (mkNode (oname o) (enc_op o) [ra] [] [out]) = Some (upd cten g out (tcanon (tmap (sem1 o) (decanon Ta)))).
-  Proof. intros H0 H1 H2. unfold step, n_uses; simpl. rewrite H2, kgsem_op by auto. unfold gsem_op. rewrite H1. reflexivity. Qed.
+  Proof. intros H0 H1 H2. unfold step, n_uses; simpl. rewrite H2, sem_op by auto. unfold gsem_op. rewrite H1. reflexivity. Qed.
   Lemma step_node2 (g : genv) o ra rb Ta Tb out : osb_ok o -> oarity o = 2%nat -> g ra = Some Ta -> g rb = Some Tb ->
     gstep g (mkNode (oname o) (enc_op o) [ra; rb] [] [out])
     = Some (upd cten g out (tcanon (tmap2b (sem2 o) (decanon Ta) (decanon Tb)))).
-  Proof. intros H0 H1 H2 H3. unfold step, n_uses; simpl. rewrite H2, H3, kgsem_op by auto. unfold gsem_op. rewrite H1. reflexivity. Qed.
+  Proof. intros H0 H1 H2 H3. unfold step, n_uses; simpl. rewrite H2, H3, sem_op by auto. unfold gsem_op. rewrite H1. reflexivity. Qed.
   Lemma step_node3 (g : genv) o ra rb rc Ta Tb Tc out : osb_ok o -> oarity o = 3%nat ->
     g ra = Some Ta -> g rb = Some Tb -> g rc = Some Tc ->
     gstep g (mkNode (oname o) (enc_op o) [ra; rb; rc] [] [out])
     = Some (upd cten g out (tcanon (tmap3b (sem3 o) (decanon Ta) (decanon Tb) (decanon Tc)))).
-  Proof. intros H0 H1 H2 H3 H4. unfold step, n_uses; simpl. rewrite H2, H3, H4, kgsem_op by auto. unfold gsem_op. rewrite H1. reflexivity. Qed.
+  Proof. intros H0 H1 H2 H3 H4. unfold step, n_uses; simpl. rewrite H2, H3, H4, sem_op by auto. unfold gsem_op. rewrite H1. reflexivity. Qed.
 
   (* what evaluating the emitted nodes does *)
   Definition emit_post (e : kx) (Xs : list cten) (next : vname) (g : genv) (res next' : vname) (g' : genv) (T : cten) : Prop :=
@@ -300,7 +304,7 @@ Section Emit.
       destruct (IHa args next na ra n1 g Xs Ea Hoka Hwf Hargs Hfr) as (g1 & Ta & Hev & Hle & Hra & Hkeep & Hfr1 & Hga & Hta & _).
       set (T := tcanon (tmap (sem1 o) (decanon Ta))).
       exists (upd cten g1 n1 T), T. split.
-      + rewrite (eval_snoc lit na _ g g1 Hev). now apply step_node1.
+      + rewrite (eval_snoc sem na _ g g1 Hev). now apply step_node1.
       + apply emit_post_intro.
         * lia.
         * lia.
@@ -322,7 +326,7 @@ Section Emit.
       assert (Hcomp : bcompat (shape (decanon Ta)) (shape (decanon Tb))).
       { rewrite (proj1 Hta), (proj1 Htb). unfold kev_t. rewrite !keval_t_shape, shapes_dX. exact Hcab. }
       exists (upd cten g2 n2 T), T. split.
-      + rewrite app_assoc. rewrite (eval_snoc lit (na ++ nb) _ g g2) by (rewrite eval_app, Hev1; exact Hev2).
+      + rewrite app_assoc. rewrite (eval_snoc sem (na ++ nb) _ g g2) by (rewrite eval_app, Hev1; exact Hev2).
         now apply step_node2.
       + apply emit_post_intro.
         * lia.
@@ -353,7 +357,7 @@ Section Emit.
       exists (upd cten g3 n3 T), T. split.
       + replace (na ++ nb ++ nc ++ [mkNode (oname o) (enc_op o) [ra; rb; rc] [] [n3]])
           with ((na ++ nb ++ nc) ++ [mkNode (oname o) (enc_op o) [ra; rb; rc] [] [n3]]) by (now rewrite <- !app_assoc).
-        rewrite (eval_snoc lit (na ++ nb ++ nc) _ g g3) by (rewrite eval_app, Hev1, eval_app, Hev2; exact Hev3).
+        rewrite (eval_snoc sem (na ++ nb ++ nc) _ g g3) by (rewrite eval_app, Hev1, eval_app, Hev2; exact Hev3).
         now apply step_node3.
       + apply emit_post_intro.
         * lia.
@@ -365,24 +369,29 @@ Section Emit.
         * apply canon_teq. now apply tmap3b_teq.
   Qed.
 
-  (* the names the emitted nodes define are exactly [next, next') *)
-  Lemma emit_defs e : forall args next nodes res next', emit e args next = (nodes, res, next') ->
-    (next <= next')%nat /\ forall x, In x (defs nodes) <-> (next <= x < next')%nat.
-  Proof.
-    induction e as [i|c|o a IHa|o a IHa b IHb|o a IHa b IHb c IHc]; intros args next nodes res next' Hem; simpl in Hem.
-    - injection Hem as <- <- <-. split; [lia|]. simpl. intro x. split; [contradiction | lia].
-    - injection Hem as <- <- <-. split; [lia|]. simpl. intro x. split; [intros [<-|[]]; lia | intro; left; lia].
-    - destruct (emit a args next) as [[na ra] n1] eqn:Ea. injection Hem as <- <- <-.
-      destruct (IHa _ _ _ _ _ Ea) as [L1 D1]. split; [lia|]. intro x. rewrite defs_app. simpl. rewrite in_app_iff, D1. simpl. lia.
-    - destruct (emit a args next) as [[na ra] n1] eqn:Ea. destruct (emit b args n1) as [[nb rb] n2] eqn:Eb. injection Hem as <- <- <-.
-      destruct (IHa _ _ _ _ _ Ea) as [L1 D1]. destruct (IHb _ _ _ _ _ Eb) as [L2 D2]. split; [lia|]. intro x.
-      rewrite !defs_app. simpl. rewrite !in_app_iff, D1, D2. simpl. lia.
-    - destruct (emit a args next) as [[na ra] n1] eqn:Ea. destruct (emit b args n1) as [[nb rb] n2] eqn:Eb.
-      destruct (emit c args n2) as [[nc rc] n3] eqn:Ec. injection Hem as <- <- <-.
-      destruct (IHa _ _ _ _ _ Ea) as [L1 D1]. destruct (IHb _ _ _ _ _ Eb) as [L2 D2]. destruct (IHc _ _ _ _ _ Ec) as [L3 D3].
-      split; [lia|]. intro x. rewrite !defs_app. simpl. rewrite !in_app_iff, D1, D2, D3. simpl. lia.
-  Qed.
 End Emit.
+
+(* the names the emitted nodes define are exactly [next, next') *)
+Lemma emit_defs e : forall args next nodes res next', emit e args next = (nodes, res, next') ->
+  (next <= next')%nat /\ forall x, In x (defs nodes) <-> (next <= x < next')%nat.
+Proof.
+  induction e as [i|c|o a IHa|o a IHa b IHb|o a IHa b IHb c IHc]; intros args next nodes res next' Hem; simpl in Hem.
+  - injection Hem as <- <- <-. split; [lia|]. simpl. intro x. split; [contradiction | lia].
+  - injection Hem as <- <- <-. split; [lia|]. simpl. intro x. split; [intros [<-|[]]; lia | intro; left; lia].
+  - destruct (emit a args next) as [[na ra] n1] eqn:Ea. injection Hem as <- <- <-.
+    destruct (IHa _ _ _ _ _ Ea) as [L1 D1]. split; [lia|]. intro x. rewrite defs_app. simpl. rewrite in_app_iff, D1. simpl. lia.
+  - destruct (emit a args next) as [[na ra] n1] eqn:Ea. destruct (emit b args n1) as [[nb rb] n2] eqn:Eb. injection Hem as <- <- <-.
+    destruct (IHa _ _ _ _ _ Ea) as [L1 D1]. destruct (IHb _ _ _ _ _ Eb) as [L2 D2]. split; [lia|]. intro x.
+    rewrite !defs_app. simpl. rewrite !in_app_iff, D1, D2. simpl. lia.
+  - destruct (emit a args next) as [[na ra] n1] eqn:Ea. destruct (emit b args n1) as [[nb rb] n2] eqn:Eb.
+    destruct (emit c args n2) as [[nc rc] n3] eqn:Ec. injection Hem as <- <- <-.
+    destruct (IHa _ _ _ _ _ Ea) as [L1 D1]. destruct (IHb _ _ _ _ _ Eb) as [L2 D2]. destruct (IHc _ _ _ _ _ Ec) as [L3 D3].
+    split; [lia|]. intro x. rewrite !defs_app. simpl. rewrite !in_app_iff, D1, D2, D3. simpl. lia.
+Qed.
+
+
+Lemma kgsem_const lit c : kgsem lit "Constant"%string (enc_const c) [] = Some [tcanon (tscalar c)].
+Proof. unfold kgsem. simpl. rewrite dec_enc_const. reflexivity. Qed.
 
 (* ================================================================ exact kernels as primitives: JAX side and plugin model *)
 Record kern := mkK {
@@ -543,7 +552,7 @@ Section Contract.
       assert (Hkok' : kok (length vals) (k_expr k)) by (rewrite Hlenb; exact Hkok).
       assert (Hcn : forall i, bsub (nth i (map c_shape vals) []) (bshape_all (map c_shape vals))) by (apply bcommon_nth; exact Hcomb).
       destruct (kwf_of_common (k_expr k) (map c_shape vals) Hcn) as [Hwf _].
-      destruct (emit_correct lit (k_expr k) args n1 nodes res n2 g1 vals Em Hkok' Hwf Hidx Hfr1)
+      destruct (emit_correct (kgsem lit) (kgsem_op lit) (kgsem_const lit) (k_expr k) args n1 nodes res n2 g1 vals Em Hkok' Hwf Hidx Hfr1)
         as (g2 & T & Hev2 & Hle2 & Hres & Hkeep2 & Hfr2 & Hgres & _ & HT).
       assert (HTeq : T = tcanon (tmapN (k_jax k) (dX vals))).
       { destruct (k_expr k) eqn:Eke; try contradiction; rewrite HT; apply canon_teq;
